@@ -5,7 +5,7 @@ V = os.path.dirname(os.path.dirname(os.path.abspath(__file__)))
 res = json.load(open(os.path.join(V, "seeded", "RESULTS.json")))
 rows = []
 cnt = {}
-for d in sorted(glob.glob(os.path.join(V, "seeded", "[STUVWX]*_*"))):
+for d in sorted(glob.glob(os.path.join(V, "seeded", "[STUVWXY]*_*"))):
     m = json.load(open(os.path.join(d, "meta.json")))
     r = res.get(m["id"], {})
     verdict = r.get("verdict", "not run")
@@ -31,7 +31,7 @@ for d in sorted(glob.glob(os.path.join(V, "seeded", "[STUVWX]*_*"))):
             what = ln[:140]
             break
     rows.append("| %s | %s | %s | %s | %s | `%s` |" % (m["id"], ",".join(m["breaks"]), ", ".join(files), what.replace("|", "/"), verdict.replace(" (exit 2)", ""), ob.replace("|", "\\|")[:120]))
-txt = "%d breaking changes were written by independent sub-agents that saw only the text of a property and a scratch worktree of /repo (nothing from /verif), in six rounds (`S*` against the tree before the repairs, `T*` against 346b94f, `U3*` - two cooperating sites / multi-step sequences - and `V4*` - one-line slips - against 53178b9, `W5*` for C20 and `X6*` for C13 against d243e00)." % len(rows) + " Each was confirmed independently (`tools/confirm_seed.sh`: applies, compiles, the 95 baseline tests pass, the demo fails with it and passes without it) and is kept under `seeded/<id>/` (patch, demo, notes, confirm log, meta). `tools/seed_matrix.py` applies each to /repo, runs the checks of the properties it breaks and undoes it.\n\n"
+txt = "%d breaking changes were written by independent sub-agents that saw only the text of a property and a scratch worktree of /repo (nothing from /verif), in seven rounds (`S*` against the tree before the repairs, `T*` against 346b94f, `U3*` - two cooperating sites / multi-step sequences - and `V4*` - one-line slips - against 53178b9, `W5*` for C20, `X6*` for C13 and `Y7*` for the serial -> date direction of C18 (thorough tier) against d243e00)." % len(rows) + " Each was confirmed independently (`tools/confirm_seed.sh`: applies, compiles, the 95 baseline tests pass, the demo fails with it and passes without it) and is kept under `seeded/<id>/` (patch, demo, notes, confirm log, meta). `tools/seed_matrix.py` applies each to /repo, runs the checks of the properties it breaks and undoes it.\n\n"
 txt += "**Result: %s.** No seeded change is accepted as holding (exit 0). The undecided ones left the subset the verifier can read (array-of-&mut iteration, iterator-chain rewrites, `continue` inside `for`, a call to a function the unit does not contain, a newly extracted helper): the check says exit 2 'unsupported construct', never 'holds'.\n\n" % ", ".join("%d %s" % (v, k) for k, v in sorted(cnt.items()))
 txt += "| id | breaks | file(s) | what the change does | verdict | failing obligation / reason |\n|---|---|---|---|---|---|\n" + "\n".join(rows) + "\n\n"
 nt = os.path.join(V, "neutral", "RESULTS.txt")
